@@ -258,10 +258,8 @@ Definition known_copied (k : rk) (x : sp) (c : rcase) : bool :=
                     | k', kc => N.eqb (rk_code k') kc && sp_eqb (rs_sp r) x && moved c x (rs_id r)
                     end) (sites c).
 Definition known_D05 := known_copied KElemExpr SF.
-(* D06: an import added or converted after parsing and then deleted stays in the index space *)
-Definition known_D06 (c : rcase) : bool :=
-  existsb (fun x => let s := get_sp (final_model c) x in
-             existsb (fun i => is_import i && it_del i) (skipn (N.to_nat (s_num s - s_added s)) (s_items s))) [SF; SG; SM].
+(* D06 (a deleted added / converted import stayed in the index space) and D26 (a deleted converted original import
+   stayed among the locals) are repaired: recalculate_ids drops every deleted item; the classes are gone. *)
 (* D07: replace_import_in_module uses the ImportsID as the FunctionID *)
 Fixpoint d07_go (s : sstate) (h : list op) (rets : list (option N)) : bool :=
   match h, rets with
@@ -279,10 +277,8 @@ Fixpoint after (p q : op -> bool) (h : list op) : bool :=
 Definition is_itadd o := match o with ItAddGlobal _ => true | _ => false end.
 Definition is_addimp_g o := match o with AddImport SG _ => true | _ => false end.
 Definition known_D24 (c : rcase) : bool := after is_itadd is_addimp_g (h_ops c).
-(* D26: an import converted to a local function and then deleted stays as a deleted item among the locals *)
 Definition is_i2l o := match o with ImportToLocal _ _ => true | _ => false end.
 Definition is_del_f o := match o with Delete SF _ => true | _ => false end.
-Definition known_D26 (c : rcase) : bool := after is_i2l is_del_f (h_ops c).
 (* D01: the id maps are re-applied by a second encode: any non-identity map *)
 Definition known_D01 (c : rcase) : bool :=
   existsb (fun x => existsb (fun kv => negb (N.eqb (fst kv) (snd kv))) (snd (ispace c x))) [SF; SG; SM]
@@ -297,25 +293,25 @@ Definition binds_ok (x : sp) (c : rcase) : bool := sites_bound c x && valid_ok c
 
 Definition verdict06 (c : rcase) : Util.verdict :=
   (agree c, in_domain c && has_site c SF, binds_ok SF c && live_exact c SF,
-   cls c [K 2 known_D02; K 5 known_D05; K 6 known_D06; K 7 known_D07; K 26 known_D26; K 24 known_D24]).
+   cls c [K 2 known_D02; K 5 known_D05; K 7 known_D07; K 24 known_D24]).
 Definition verdict07 (c : rcase) : Util.verdict :=
   (agree c, in_domain c && has_site c SG, binds_ok SG c && live_exact c SG,
-   cls c [K 2 known_D02; K 5 known_D05; K 6 known_D06; K 24 known_D24; K 26 known_D26; K 7 known_D07]).
+   cls c [K 2 known_D02; K 5 known_D05; K 24 known_D24; K 7 known_D07]).
 Definition verdict08 (c : rcase) : Util.verdict :=
   (agree c, in_domain c && has_site c SM, binds_ok SM c && live_exact c SM,
-   cls c [K 2 known_D02; K 5 known_D05; K 6 known_D06; K 24 known_D24; K 26 known_D26; K 7 known_D07]).
+   cls c [K 2 known_D02; K 5 known_D05; K 24 known_D24; K 7 known_D07]).
 Definition is_delete o := match o with Delete _ _ | DeleteExport _ => true | _ => false end.
 Definition verdict09 (c : rcase) : Util.verdict :=
   (agree c, in_domain c && hist_has c is_delete,
    forallb (fun x => sites_bound c x && live_exact c x) [SF; SG; SM] && valid_ok c && negb (ss_coll (spec_final c)),
-   cls c [K 2 known_D02; K 5 known_D05; K 6 known_D06; K 24 known_D24; K 26 known_D26; K 7 known_D07]).
+   cls c [K 2 known_D02; K 5 known_D05; K 24 known_D24; K 7 known_D07]).
 Definition verdict10 (c : rcase) : Util.verdict :=
   (agree c, in_domain c && hist_has c is_i2l, binds_ok SF c && live_exact c SF,
-   cls c [K 2 known_D02; K 5 known_D05; K 6 known_D06; K 7 known_D07; K 26 known_D26; K 24 known_D24]).
+   cls c [K 2 known_D02; K 5 known_D05; K 7 known_D07; K 24 known_D24]).
 Definition is_l2i o := match o with LocalToImport _ _ => true | _ => false end.
 Definition verdict11 (c : rcase) : Util.verdict :=
   (agree c, in_domain c && hist_has c is_l2i, binds_ok SF c && live_exact c SF,
-   cls c [K 2 known_D02; K 5 known_D05; K 6 known_D06; K 7 known_D07; K 26 known_D26; K 24 known_D24]).
+   cls c [K 2 known_D02; K 5 known_D05; K 7 known_D07; K 24 known_D24]).
 Definition verdict05 (c : rcase) : Util.verdict :=
   (agree c, negb (o_api_panic c) && encoded c, o_same2 c, cls c [K 1 known_D01]).
 
